@@ -249,6 +249,26 @@ CHECKS = {
             'deterministic simulation: reply-order schedule search + '
             'responder/requester fault injection, per-request response '
             'accounting', 'DESIGN.md 4 C14'),
+    'C19': ('c19_streams',
+            'A server-side process writes drawn stdout/stderr streams (bytes '
+            'or UTF-8 text over an alphabet containing the separators and '
+            'multi-byte characters) in drawn chunks and exits with a status '
+            'or signal while the client feeds stdin; windows and packet sizes '
+            'from 1 byte up make separators and characters straddle packets. '
+            'Each stream is read by a drawn program of read(n)/read()/'
+            'readexactly/readline/readuntil (single, multiple, regex) and '
+            'every call is compared with a sequential reference reader over '
+            'the total stream; run()/communicate()/wait() must return '
+            'complete stdout+stderr with the exit status or signal; stdout '
+            'redirected to a file / DEVNULL / another process and stdin from '
+            'a file must carry all data then EOF; drain() must not hang.',
+            COMMON_NOTE + ' Separator sets with one separator a prefix of '
+            'another are not generated; a buffer-limit give-up of readuntil/'
+            'readline is accepted when the shared receive limit can have '
+            'been reached and no unit is lost.',
+            'deterministic simulation: schedule/segmentation search with a '
+            'sequential reference stream reader as oracle',
+            'DESIGN.md 4 C19'),
 }
 
 NOT_YET = {}
